@@ -256,6 +256,8 @@ class Folder:
             v = f(args[0])
             if isinstance(v, dict):
                 v = list(v)
+            if isinstance(v, range) and (v.stop - v.start) > 100000:
+                raise Unknown("range too large to enumerate")
             if name in ("frozenset", "set"):
                 return frozenset(v)
             if name == "tuple":
@@ -275,10 +277,7 @@ class Folder:
         if name == "range":
             vals = [f(a) for a in args]
             if all(isinstance(v, int) for v in vals):
-                r = range(*vals)
-                if len(r) > 100000:
-                    raise Unknown("range")
-                return r
+                return range(*vals)
         if name in ("len", "min", "max", "sum", "int", "bytes", "bool", "abs", "str") and args and not node.keywords:
             vals = [f(a) for a in args]
             try:
@@ -350,6 +349,8 @@ class Folder:
             it = self.fold(g.iter, mi, env2)
             if isinstance(it, dict):
                 it = list(it)
+            if isinstance(it, range) and (it.stop - it.start) > 100000:
+                raise Unknown("range too large to enumerate")
             n = 0
             for item in it:
                 n += 1
